@@ -113,6 +113,55 @@ def recIdx (s : Nat) : List Ev → List Nat
   | .record s' i :: es => if s' == s then i :: recIdx s es else recIdx s es
   | _ :: es => recIdx s es
 
+/-! ## The Kinesis `SourceReader` under the runner loop, with failing reads
+
+`connectors/kinesis/source_reader.go ReadEvents` polls one assigned shard per call (round robin). A shard's position
+(records read so far; the reported cursor is the sequence number of the last one) moves only after its `GetRecords`
+succeeded; when it fails the call returns the error and nothing has moved. `connectors.ReadSourceChannel` hands a
+retryable error to the loop with no events, and the loop continues. -/
+
+structure KRd where
+  r : RSt := {}
+  idx : Nat := 0                    -- `shardIndex`
+  totals : List (Nat × Nat) := []   -- environment: records in each shard
+  limit : Nat := 1                  -- environment: records per `GetRecords`
+  failIn : Nat := 0                 -- environment: the `failIn`-th `GetRecords` from now fails (0 = none)
+deriving Repr
+
+inductive KAct where
+  | put (shard n : Nat)
+  | assign (l : List (Nat × Nat))   -- (shard, position)
+  | fail (k : Nat)
+  | read                            -- one `ReadEvents` through `ReadSourceChannel` and the loop
+  | barrier (id : Nat)
+deriving Repr
+
+def totalOf (t : List (Nat × Nat)) (s : Nat) : Nat := t.foldl (fun acc p => if p.1 == s then acc + p.2 else acc) 0
+
+/-- outcome of a read seen by the loop: `some n` records, `none` = retryable error -/
+def kstep (k : KRd) : KAct → KRd × Option (Option Nat)
+  | .put s n => ({ k with totals := k.totals ++ [(s, n)] }, none)
+  | .assign l => ({ k with r := rstep k.r (.assign l) }, none)
+  | .fail n => ({ k with failIn := n }, none)
+  | .barrier n => ({ k with r := rstep k.r (.barrier n) }, none)
+  | .read =>
+    match k.r.splits[k.idx]? with
+    | none => (k, some (some 0))   -- no shards assigned: `return [][]byte{}, nil`
+    | some sp =>
+      if k.failIn == 1 then
+        -- `GetRecords` fails: the error is returned, no position has moved, nothing is emitted
+        ({ k with failIn := 0 }, some none)
+      else
+        let n := min k.limit (totalOf k.totals sp.split - sp.cur)
+        ({ k with failIn := k.failIn - 1, r := rstep k.r (.read (List.replicate n sp.split)),
+                  idx := (k.idx + 1) % k.r.splits.length }, some (some n))
+
+def krun (k : KRd) (as : List KAct) : KRd := as.foldl (fun k a => (kstep k a).1) k
+
+/-- what a reader/channel pair does that moves positions for records it then drops (a failing read that had already
+polled other shards, whose events the channel discards) -/
+def readDrop (st : RSt) (b : List Nat) : RSt := { (b.foldl readOne st) with out := st.out }
+
 /-! ## Kinesis: `uniformlyAssignShard` -/
 
 def bitLen (a : Nat) : Nat := if a = 0 then 0 else a.log2 + 1
